@@ -462,12 +462,26 @@ func cmdCheck(args []string) {
 	}
 
 	if *writeLedger {
-		var ds []string
+		var ds, slowNames []string
+		// obligations put into the second tier by hand (their time is close to its upper limit and measured times jitter)
+		pinnedSlow := map[string]bool{}
+		{
+			var pinned []string
+			readJSON(filepath.Join(*verif, "baseline", "slow_pinned.json"), &pinned)
+			for _, n := range pinned {
+				pinnedSlow[n] = true
+			}
+		}
 		for _, n := range names {
 			if n.Status == "discharged" {
 				// admission rule: only obligations that discharge with a wide margin under the quick timeout are claimed
 				if n.MaxTime > 3.0 {
 					fmt.Printf("ledger: NOT admitted (slowest instance %.1fs, limit 3.0s): %s\n", n.MaxTime, n.Name)
+					if n.MaxTime <= 5.0 || pinnedSlow[n.Name] {
+						// second tier: discharged, but too slowly to be claimed. Not discharging it on a later tree is
+						// no violation by itself; it sends the run to the replay corpora (see slowSet below).
+						slowNames = append(slowNames, n.Name)
+					}
 					continue
 				}
 				ds = append(ds, n.Name)
@@ -479,6 +493,12 @@ func cmdCheck(args []string) {
 		os.MkdirAll(filepath.Join(*verif, "baseline"), 0755)
 		os.WriteFile(filepath.Join(*verif, "baseline", "obligations.json"), append(b, '\n'), 0644)
 		fmt.Printf("ledger: %d obligations recorded for %s\n", len(ds), *prop)
+		slow := map[string][]string{}
+		readJSON(filepath.Join(*verif, "baseline", "slow.json"), &slow)
+		sort.Strings(slowNames)
+		slow[*prop] = slowNames
+		sb, _ := json.MarshalIndent(slow, "", " ")
+		os.WriteFile(filepath.Join(*verif, "baseline", "slow.json"), append(sb, '\n'), 0644)
 		// the loops seen in this run and what they carry without an invariant (see havocLoop)
 		loops := map[string][]string{}
 		readJSON(filepath.Join(*verif, "baseline", "loops.json"), &loops)
@@ -522,11 +542,19 @@ func cmdCheck(args []string) {
 					violated = true
 				}
 			}
+			verdict := "bounded check found a failing input on the real code"
+			if !violated && !strings.Contains(out, "PROPERTY-VIOLATED") && !strings.Contains(out, "BOUNDED-OK") &&
+				(strings.Contains(out, "fatal error:") || strings.Contains(out, "panic:")) && strings.Contains(out, "github.com/hashicorp/go-slug") && strings.Contains(out, "goroutine ") {
+				// the worlds use the public API as documented and recover the panics the code announces; a crash the
+				// harness cannot recover from is the real code failing in that world, not a broken harness
+				violated = true
+				verdict = "the real code crashed (unrecovered panic or fatal error) in a world of the bounded check"
+			}
 			if violated {
 				res = "VIOLATED"
 				f := filepath.Join(filepath.Join(*verif, "evidence", "replay"), sanitize("bounded."+ad)+".json")
 				os.MkdirAll(filepath.Dir(f), 0755)
-				b, _ := json.MarshalIndent(map[string]interface{}{"property": *prop, "obligation": c, "bounded_adapter": ad, "replay_adapter": ad, "verdict": "bounded check found a failing input on the real code", "replay_output": replayExcerpt(out), "replay_test_source": ran[ad+"#src"]}, "", " ")
+				b, _ := json.MarshalIndent(map[string]interface{}{"property": *prop, "obligation": c, "bounded_adapter": ad, "replay_adapter": ad, "verdict": verdict, "replay_output": replayExcerpt(out), "replay_test_source": ran[ad+"#src"]}, "", " ")
 				os.WriteFile(f, b, 0644)
 				boundedViolations = append(boundedViolations, fmt.Sprintf("VIOLATION property=%s replay=%s obligation=%s", *prop, f, c))
 			} else if strings.Contains(out, "PROPERTY-VIOLATED") {
@@ -550,8 +578,17 @@ func cmdCheck(args []string) {
 	expectedClause := map[string]bool{}
 	for _, n := range ledger[*prop] {
 		expected[n] = true
-		if i := strings.LastIndex(n, "#"); i > 0 && strings.Contains(n, ".at.") {
+		if i := strings.LastIndex(n, "#"); i > 0 && (strings.Contains(n, ".at.") || strings.Contains(n, ".propagates.")) {
 			expectedClause[n[:i]] = true
+		}
+	}
+	// second tier of the ledger: obligations that discharge on the baseline tree, but not fast enough to be claimed
+	slowSet := map[string]bool{}
+	{
+		slow := map[string][]string{}
+		readJSON(filepath.Join(*verif, "baseline", "slow.json"), &slow)
+		for _, n := range slow[*prop] {
+			slowSet[n] = true
 		}
 	}
 	kfBy := map[string][]KnownFinding{}
@@ -639,15 +676,15 @@ func cmdCheck(args []string) {
 				violations = append(violations, fmt.Sprintf("VIOLATION property=%s replay=%s obligation=%s", *prop, file, n.Name))
 			} else {
 				rec.Status = "undecided"
-				rec.Note = "fails only on paths through a loop that was cut without an invariant for what it carries: " + n.Fails[0].O.Weak + "; not confirmed by replay"
-				undecidable("obligation %s is not decidable: it fails only behind a loop that was cut without an invariant for what it carries: %s", n.Name, n.Fails[0].O.Weak)
+				rec.Note = "fails only where the contracts lost sight of the code (a loop cut without an invariant for what it carries, or ghost state nothing observes any more): " + n.Fails[0].O.Weak + "; not confirmed by replay"
+				undecidable("obligation %s is not decidable: it fails only where the contracts lost sight of the code: %s", n.Name, n.Fails[0].O.Weak)
 			}
 		case n.Status == "failed":
 			base := n.Name
 			if i := strings.LastIndex(base, "#"); i > 0 {
 				base = base[:i]
 			}
-			if expected[n.Name] || (n.Kind == "at-call" && expectedClause[base]) {
+			if expected[n.Name] || ((n.Kind == "at-call" || n.Kind == "propagation") && expectedClause[base]) {
 				nOblig++
 				report(n, "obligation was discharged on the baseline tree and now has a counterexample")
 			} else {
@@ -656,6 +693,9 @@ func cmdCheck(args []string) {
 				if ok {
 					nOblig++
 					violations = append(violations, fmt.Sprintf("VIOLATION property=%s replay=%s obligation=%s", *prop, file, n.Name))
+				} else if slowSet[n.Name] {
+					rec.Note = "discharged on the baseline tree, but too slowly to be claimed (baseline/slow.json); now has a counterexample that does not replay: undecided"
+					undecidable("obligation %s (second tier: discharged on the baseline tree above the time limit for claimed obligations) now has a counterexample that was not confirmed on the real code", n.Name)
 				} else {
 					rec.Note = "not in the baseline ledger; counterexample not confirmed on the real code: not counted"
 					undecidedNew = append(undecidedNew, n.Name)
@@ -665,6 +705,9 @@ func cmdCheck(args []string) {
 			if expected[n.Name] {
 				nOblig++
 				report(n, "obligation was discharged on the baseline tree and is no longer decided ("+n.Failing.Res.Status+")")
+			} else if slowSet[n.Name] && !*writeLedger {
+				rec.Note = "discharged on the baseline tree, but too slowly to be claimed (baseline/slow.json); not decided on this tree: undecided"
+				undecidable("obligation %s (second tier: discharged on the baseline tree above the time limit for claimed obligations) is not decided on this tree (%s)", n.Name, n.Failing.Res.Status)
 			} else {
 				rec.Note = "not in the baseline ledger and not decided: not counted"
 				undecidedNew = append(undecidedNew, n.Name)
